@@ -48,7 +48,7 @@ extern "C" void sym_body()
     symsource_t         src(kinds, n, static_cast<long>(kinds.size()) - 1, static_cast<int>(cfgi("miss", 0)));
     src.load();
     // threads=<K>;sched=<0 rr|1 last|2 reversed|3 arbitrary>: sequentialised multi-worker pool (any assignment of chunks to workers)
-    dataset_t ds(src, setup_workers(cfgi("threads", 1), cfgi("sched", 0)));
+    dataset_t ds(src, setup_workers(cfgi("threads", 1), cfgi("sched", 0), cfgi("arb", -1)));
     add_identity_generators(ds);
     const auto samples = all_samples(n);
 
@@ -134,4 +134,5 @@ extern "C" void sym_body()
     it1.scaling(sc);
     linear::function_t fun1(it1, *loss, l1, l2);
     SYM_EQ_(fun1.vgrad(x), v1, "objective does not depend on the batch size");
+    sym_note(("drains=" + std::to_string(h::g_drains) + " tasks=" + std::to_string(h::g_tasks_run)).c_str());
 }
